@@ -96,34 +96,43 @@ Jac(d) == RDiv(RMul(d.a, d.b), RFromInt(4))
 (* resultants N = F eps (six P2s), and their norm bound with Fs *)
 Resultants(F, eps) == Fn([p \in 1..6 |-> LET f(q) == P2Scale(F[p][q], eps[q]) IN P2SumFrom(f, 1, 6, P2Zero)])
 NormVec(eps) == Fn([p \in 1..6 |-> P2Norm(eps[p])])
+MScaleV(s, v) == Fn([p \in 1..Len(v) |-> RMul(s, v[p])])
+
+(* laminate varying over the panel as F(xi,eta) = (t0 + tx xi + ty eta) F : the per-point laminate tables
+   the numerical kernels accept; tp = <<t0, tx, ty>>, uniform = <<1, 0, 0>> *)
+Uniform == <<ROne, RZero, RZero>>
+TaperP2(tp) == << <<tp[1], tp[3]>>, <<tp[2], RZero>> >>
+ScaleAll(t, v) == Fn([p \in 1..Len(v) |-> P2Mul(t, v[p])])
 
 (* internal force vector: <<value, scale>> per amplitude *)
-Fint(d, c) ==
+FintT(d, c, tp) ==
     LET eps == StateStrains(d, c, TRUE)
-        Nr == Resultants(d.F, eps)
-        Nn == MVec(d.Fs, NormVec(eps))
+        Nr == ScaleAll(TaperP2(tp), Resultants(d.F, eps))
+        Nn == MScaleV(P2Norm(TaperP2(tp)), MVec(d.Fs, NormVec(eps)))
         wx == FieldP2(d, c, W, 1, 0)   wy == FieldP2(d, c, W, 0, 1)
     IN Fn([k \in 1..Size(d) |->
           LET de == VarStrains(d, k, wx, wy, TRUE)
           IN << RMul(Jac(d), RSum(Fn([p \in 1..6 |-> P2IntMul(de[p], Nr[p])]))),
                 RMul(RMul(Jac(d), RFromInt(4)), RDot(NormVec(de), Nn)) >>])
+Fint(d, c) == FintT(d, c, Uniform)
 
 (* tangent stiffness; NLk / NLg: whether the von Karman terms enter the constitutive part / the
    resultants of the geometric part (the package's kT uses both; its state-based kG uses NLg only) *)
-TangentParts(d, c, withK, withG, NLk, NLg, full) ==
+TangentPartsT(d, c, withK, withG, NLk, NLg, full, tp) ==
     LET wx == FieldP2(d, c, W, 1, 0)   wy == FieldP2(d, c, W, 0, 1)
         n == Size(d)
         de == Fn([k \in 1..n |-> VarStrains(d, k, wx, wy, NLk)])
-        G == Fn([l \in 1..n |-> Resultants(d.F, de[l])])
+        G == Fn([l \in 1..n |-> ScaleAll(TaperP2(tp), Resultants(d.F, de[l]))])
+        tn == P2Norm(TaperP2(tp))
         dn == Fn([k \in 1..n |-> NormVec(de[k])])
         epsG == StateStrains(d, c, NLg)
-        Ng == Resultants(d.F, epsG)
-        NgN == MVec(d.Fs, NormVec(epsG))
+        Ng == ScaleAll(TaperP2(tp), Resultants(d.F, epsG))
+        NgN == MScaleV(tn, MVec(d.Fs, NormVec(epsG)))
         bx == Fn([k \in 1..n |-> IF DofOf(d, k) = W THEN BasisP2(d, k, 1, 0) ELSE P2Zero])
         by == Fn([k \in 1..n |-> IF DofOf(d, k) = W THEN BasisP2(d, k, 0, 1) ELSE P2Zero])
         entry(k, l) ==
             LET cons == IF withK THEN RSum(Fn([p \in 1..6 |-> P2IntMul(de[k][p], G[l][p])])) ELSE RZero
-                consS == IF withK THEN RMul(RFromInt(4), RDot(dn[k], MVec(d.Fs, dn[l]))) ELSE RZero
+                consS == IF withK THEN RMul(RMul(tn, RFromInt(4)), RDot(dn[k], MVec(d.Fs, dn[l]))) ELSE RZero
                 isw == DofOf(d, k) = W /\ DofOf(d, l) = W
                 geo == IF withG /\ isw
                        THEN RAdd(P2IntMul(P2Mul(bx[k], bx[l]), Ng[1]),
@@ -140,10 +149,13 @@ TangentParts(d, c, withK, withG, NLk, NLg, full) ==
            otherwise the lower triangle is copied from the upper one *)
         upper == Fn([k \in 1..n |-> Fn([l \in 1..n |-> IF k <= l \/ full THEN entry(k, l) ELSE PairZero])])
     IN Fn([k \in 1..n |-> Fn([l \in 1..n |-> IF k <= l \/ full THEN upper[k][l] ELSE upper[l][k]])])
+TangentParts(d, c, withK, withG, NLk, NLg, full) == TangentPartsT(d, c, withK, withG, NLk, NLg, full, Uniform)
 KT(d, c) == TangentParts(d, c, TRUE, TRUE, TRUE, TRUE, FALSE)
+KTT(d, c, tp) == TangentPartsT(d, c, TRUE, TRUE, TRUE, TRUE, FALSE, tp)
 KTFull(d, c) == TangentParts(d, c, TRUE, TRUE, TRUE, TRUE, TRUE)
 (* state-based geometric stiffness: resultants of the state (linear strains unless NL) *)
 KGState(d, c, NL) == TangentParts(d, c, FALSE, TRUE, FALSE, NL, FALSE)
+KGStateT(d, c, NL, tp) == TangentPartsT(d, c, FALSE, TRUE, FALSE, NL, FALSE, tp)
 (* strain energy of a state *)
 Energy(d, c) == LET eps == StateStrains(d, c, TRUE)  Nr == Resultants(d.F, eps)
                 IN RMul(RMul(half, Jac(d)), RSum(Fn([p \in 1..6 |-> P2IntMul(eps[p], Nr[p])])))
